@@ -10,6 +10,7 @@ pub mod efmt;
 pub mod epoch;
 pub mod epochtext;
 pub mod f64ops;
+pub mod wrappers;
 
 pub fn salt(prop: &str) -> u64 {
     let mut h: u64 = 0xcbf29ce484222325;
@@ -73,6 +74,9 @@ pub fn exec(op: &str, args: &[&str]) -> Option<String> {
         return Some(r);
     }
     if let Some(r) = efmt::exec(op, args) {
+        return Some(r);
+    }
+    if let Some(r) = wrappers::exec(op, args) {
         return Some(r);
     }
     if let Some(r) = f64ops::exec(op, args) {
